@@ -48,7 +48,7 @@ pub fn with_ts<R>(f: impl FnOnce(&mut TrackState) -> R) -> R {
 }
 
 fn guard_len(l: &Layout) -> usize {
-    let g = std::cmp::max(64, 4 * l.size());
+    let g = std::cmp::max(4096, 4 * l.size());
     // multiple of 2*align so that payload alignment is controlled by the extra `align` below
     let a2 = 2 * l.align();
     (g + a2 - 1) / a2 * a2
@@ -107,6 +107,26 @@ impl TrackState {
         }
     }
     pub fn live_blocks(&self) -> usize { self.live.len() }
+    /// Mem lifecycle: every Mem is built once with the expected element layout, nothing happens after its release
+    pub fn lifecycle_errors(&self, size: usize, align: usize) -> Vec<String> {
+        let mut errs = Vec::new();
+        let mut dropped: Vec<u32> = Vec::new();
+        for e in &self.events {
+            match e {
+                TEv::Build { serial, size: s, align: a, .. } => {
+                    if *s != size || *a != align { errs.push(format!("storage #{serial} requested with layout size={s} align={a}, element layout is size={size} align={align}")); }
+                }
+                TEv::Expand { serial, .. } | TEv::ExpandExact { serial, .. } | TEv::Resize { serial, .. } => {
+                    if dropped.contains(serial) { errs.push(format!("storage #{serial} resized after it was released")); }
+                }
+                TEv::Drop { serial, .. } => {
+                    if dropped.contains(serial) { errs.push(format!("storage #{serial} released twice")); }
+                    dropped.push(*serial);
+                }
+            }
+        }
+        errs
+    }
     pub fn live_serials(&self) -> Vec<u32> { self.live.iter().map(|(s, _)| *s).collect() }
     /// forget everything (leaked blocks of faulted runs are freed here)
     pub fn reset(&mut self) {
